@@ -1210,6 +1210,61 @@ func (g *genCtx) bursts(transports []transportSpec, rounds int) []*History {
 		}
 		h.Steps = append(h.Steps, Step{Op: "par", Par: par}, Step{S: 0, Op: "sync", Re: true})
 		hs = append(hs, h)
+
+		// a realm is removed (and added again) by the application while its
+		// sessions publish, call and hold pending invocations: the peers of
+		// those sessions are closed by the shutdown path
+		h = &History{Name: fmt.Sprintf("burst/%s/realm-removal", t), Stream: "burst"}
+		for i := 0; i < 5; i++ {
+			sp := t.spec()
+			sp.Realm = "realm.removable"
+			if i == 0 {
+				sp.Roles = "all+yield"
+			}
+			h.Sessions = append(h.Sessions, sp)
+		}
+		cycles := rounds / 20
+		if cycles < 2 {
+			cycles = 2
+		}
+		for c := 0; c < cycles; c++ {
+			h.Steps = append(h.Steps, Step{Op: "addrealm", Hex: "realm.removable"})
+			for i := 0; i < 5; i++ {
+				h.Steps = append(h.Steps, stepAttach(i))
+			}
+			h.Steps = append(h.Steps,
+				stepMsg(0, "", mk(64, vID(1), vDict(), vURI("rr.proc"))), stepMsg(1, "", mk(64, vID(1), vDict(), vURI("rr.slow"))),
+				stepMsg(1, "", mk(32, vID(2), vDict("match", vStr("prefix")), vURI("rr."))), stepMsg(2, "", mk(32, vID(1), vDict("match", vStr("prefix")), vURI("wamp."))),
+				stepSync(0), stepSync(1), stepSync(2))
+			par = nil
+			for r := 0; r < 25; r++ {
+				par = append(par,
+					Step{S: 3, Op: "msg", Note: "realm-removal/publish", M: mk(16, vRef("req"), vDict("exclude_me", vBool(false)), vURI("rr.t"), vList(vInt(r)))},
+					Step{S: 4, Op: "msg", Note: "realm-removal/call", M: mk(48, vRef("req"), vDict("timeout", vInt(5)), vURI([]string{"rr.proc", "rr.slow", "wamp.session.count"}[r%3]), vList(vInt(r)))},
+					Step{S: 2, Op: "msg", Note: "realm-removal/subscribe", M: mk(32, vRef("req"), vDict(), vURI(fmt.Sprintf("rr.s%d", r)))})
+				if r == 12 {
+					par = append(par, Step{S: 2, Op: "removerealm", Hex: "realm.removable"})
+				}
+			}
+			// the removal runs concurrently with the senders: it is its own lane
+			lane := []Step{{Op: "sleep", Ms: 1 + c%3}, {Op: "removerealm", Hex: "realm.removable", Note: "realm-removal/remove"}}
+			h.Steps = append(h.Steps, Step{Op: "par", Par: append(par, laneOf(97, lane)...)})
+			for i := 0; i < 5; i++ {
+				h.Steps = append(h.Steps, stepClose(i))
+			}
+		}
+		hs = append(hs, h)
 	}
 	return hs
+}
+
+// laneOf gives the steps their own goroutine in a par step (session index n is
+// only a lane number: the steps must not refer to a session).
+func laneOf(n int, steps []Step) []Step {
+	out := make([]Step, len(steps))
+	for i, s := range steps {
+		s.S = n
+		out[i] = s
+	}
+	return out
 }
